@@ -22,7 +22,7 @@ Typed reader (`TFn`, growth round: decision tables and row masks -- `Generated/E
   exactly the declared list, in the declared order (so a renamed LOCAL never changes it);
 * `self.col` / `row.col` (a column of the table, one row at a time) is the parameter `col`; a call of a declared row-mask
   method (`cnarr.chr_x_filter(g)`, `self.parx_filter(genome_build=g)`) is the Bool parameter of that name -- what was
-  passed to it is recorded in `<name>_calls` (a list of strings) and pinned by a theorem of its own;
+  passed to it is recorded in `<name>_calls` (the distinct call texts, sorted) and pinned by a theorem of its own;
 * `x is None` / `x is not None` for a declared optional parameter `x` is the Bool parameter `x_given`;
 * `s.lower()` is `String.toLower`; `a in [l1, l2]` is `a == l1 || a == l2`; `==`/`!=` are `BEq` on strings and numbers;
   `and`/`or`/`not` and the elementwise `&`/`|`/`~` of boolean Series are `&&`/`||`/`!`; `<=` etc. are `decide (.. ≤ ..)`;
@@ -537,7 +537,7 @@ class TFn:
         lst = lambda xs: "[" + ", ".join(json.dumps(x) for x in xs) + "]"
         if self.masks:
             text += f"\n/-- what `{lean_name}` passes to the row masks it reads as parameters -/\n" \
-                    f"def {lean_name}_calls : List String := {lst(self.calls)}"
+                    f"def {lean_name}_calls : List String := {lst(sorted(set(self.calls)))}"
         if self.lookups:
             text += f"\n/-- the table keys `{lean_name}` looks its Int parameters up under -/\n" \
                     f"def {lean_name}_lookups : List String := {lst(self.lookups)}"
